@@ -279,6 +279,78 @@ def rule_precision(rep, u):
     return n
 
 
+# ---- R4: cooperating sites of the SQLite symbol table and the gzip stream buffer ---------------------
+def rule_sqlite_symbol_ids(rep, u):
+    """getSymbolTableID tells a new symbol from an existing one by the result of stepping the INSERT: the prepared
+    statement must therefore FAIL on a duplicate (plain INSERT into a UNIQUE column), and last_insert_rowid may only be
+    trusted on the success branch"""
+    fs = {f.name: f for f in u.functions if f.d.get('cls') == 'WriteStreamSQLite' and not f.is_lambda}
+    need = ('prepareSymbolInsertStatement', 'getSymbolTableID', 'createTables')
+    if any(n not in fs for n in need):
+        for n in need:
+            if n not in fs:
+                rep.analysis_broken('WriteStreamSQLite::%s not found' % n)
+        return
+    ins = ''.join(m.get('str', '') for m in fs['prepareSymbolInsertStatement'].walk() if m['k'] == 'StringLiteral').upper()
+    ok = 'INSERT INTO' in ins.replace('  ', ' ') and ' OR ' not in ins.split('VALUES')[0]
+    rep.ob('R4-sqlite-symbol-insert-fails-on-duplicate', 'WriteStreamSQLite::prepareSymbolInsertStatement', ok, fs['prepareSymbolInsertStatement'].where,
+           '' if ok else 'the symbol INSERT carries a conflict clause (%r): a duplicate no longer fails, but getSymbolTableID trusts '
+           'sqlite3_last_insert_rowid() whenever the step succeeds -> wrong symbol ids' % ins[:40])
+    cr = ''.join(m.get('str', '') for f_ in fs.values() for m in f_.walk() if m['k'] == 'StringLiteral').upper()
+    cr = cr[cr.find('SYMBOL TEXT'):][:40] if 'SYMBOL TEXT' in cr else ''
+    rep.ob('R4-sqlite-symbol-unique', 'WriteStreamSQLite::createTables', 'UNIQUE' in cr, fs['createTables'].where,
+           '' if 'UNIQUE' in cr else 'the symbol column is not UNIQUE: every write inserts a fresh row, equal symbols get different ids')
+    g = fs['getSymbolTableID']
+    from props.parallel_guard import guarded_by, not_guarded_by
+    last = [m for m in g.walk() if is_call(m, 'sqlite3_last_insert_rowid')]
+    sel = [m for m in g.walk() if is_call(m, 'getSymbolTableIDFromDB')]
+    is_step = lambda core: core['k'] == 'BinaryOperator' and core['op'] in ('!=', '==') and any(is_call(x, 'sqlite3_step') for x in walk(core))
+    ok = bool(last) and bool(sel) and all(guarded_by(g, m, is_step)[0] or not_guarded_by(g, m, is_step) for m in last + sel)
+    rep.ob('R4-sqlite-rowid-only-after-successful-insert', 'WriteStreamSQLite::getSymbolTableID', ok, g.where,
+           '' if ok else 'the row id of a symbol is not chosen by the outcome of the INSERT step (new: last_insert_rowid, existing: SELECT)')
+
+
+def rule_gzip_overflow(rep, u):
+    fs = [f for f in u.functions if f.d.get('cls') == 'gzfstreambuf' and f.name == 'overflow' and f.cfg]
+    if not fs:
+        rep.analysis_broken('gzfstreambuf::overflow not found')
+        return
+    f = fs[0]
+    from engine import pathflow
+    stores = [m for m in f.walk() if m['k'] == 'BinaryOperator' and m['op'] == '=' and strip(kids(m)[0], casts=True)['k'] == 'UnaryOperator'
+              and any(is_call(x, 'pptr') for x in walk(kids(m)[0]))]
+    lens = [m for m in f.walk() if m['k'] == 'BinaryOperator' and m['op'] == '-' and any(is_call(x, 'pptr') for x in walk(m)) and any(is_call(x, 'pbase') for x in walk(m))]
+    bumps = [m for m in f.walk() if is_call(m, 'pbump')]
+    ok = bool(stores) and bool(lens)
+    det = 'overflow(): store of the overflowing character / flush length not found'
+    if ok:
+        # the pbump(1) that accounts for the stored character precedes the computation of the flush length
+        b1 = [m for m in bumps if strip(call_args(m)[0], casts=True).get('val') == '1']
+        ok = bool(b1) and all(_before_or_exclusive(f, b1[0], l) for l in lens)
+        det = 'the number of bytes to flush is computed before the overflowing character is stored: that character is dropped from every full buffer'
+    rep.ob('R4-gzip-overflow-stores-before-flush', 'gzfstreambuf::overflow', ok, f.where, '' if ok else det)
+
+
+def _before_or_exclusive(f, a, b):
+    """a is executed before b on every path that executes both (a may be conditional: c != EOF)"""
+    from engine import pathflow
+    dom, succ, pred, reach = pathflow.dominators(f)
+    ba, bb = pathflow.block_of(f, a['id']), pathflow.block_of(f, b['id'])
+    if ba is None or bb is None:
+        return False
+    if ba == bb:
+        return pathflow.executes_before(f, a['id'], b['id'], dom)
+    # b must not be able to reach a
+    seen, stack = set(), [bb]
+    while stack:
+        x = stack.pop()
+        if x in seen:
+            continue
+        seen.add(x)
+        stack.extend(succ.get(x, []))
+    return ba not in seen
+
+
 MUTANTS = [
     ('csv-reader-unsigned-as-signed', 'src/include/souffle/io/ReadStreamCSV.h',
      'tuple[inputMap[column]] = ramBitCast(readRamUnsigned(element, charactersRead));', 'tuple[inputMap[column]] = RamSignedFromString(element, &charactersRead);', 'R1'),
@@ -307,6 +379,8 @@ def analyse(rep):
     rule_type_dispatch(rep, u)
     rule_escape_table(rep, u)
     rep.floor('R3-stream-owners', rule_precision(rep, u), 5)
+    rule_sqlite_symbol_ids(rep, u)
+    rule_gzip_overflow(rep, u)
 
 
 def run(tier='quick'):
